@@ -150,6 +150,29 @@ let exec (s : t) (verbose : bool) (f : string array) (obs : string option) : str
         | (OpenOk (d', _), _) -> "ok " ^ d1 ^ " / " ^ dump_of d'
         | (OpenErr (e, _), _) -> "ok " ^ d1 ^ " / err " ^ eerr_name e)
      | (OpenErr (e, _), _) -> "err " ^ eerr_name e)
+  | "crashcont" ->
+    (* E crashcont <k> <cut> <cfg 6 fields> <key> <val>: the crash image is opened, one batch
+       (its id observed from the implementation) writes <key> and commits, then close, open, dump *)
+    let k = int_of_string f.(2) in
+    let c = { c_fsize = n_of_string f.(4); c_sync = n_of_string f.(5); c_bps = n_of_string f.(6);
+              c_io = n_of_string f.(7) } in
+    let evs = List.rev s.all_events in
+    recorder := (fun _ -> ());
+    let o = match obs with Some o -> obs_head o | None -> "" in
+    let id = match String.split_on_char ' ' o with "ok" :: id :: _ -> id | _ -> "1" in
+    (match crash_open c evs (nat_of_int k) CutNone with
+     | (OpenOk (d, kd), _) ->
+       let b = new_batch false (n_of_string id) in
+       let (((d, b), _), _) = batch_put d b (tok_bytes f.(10)) (tok_bytes f.(11)) in
+       let (((d, _), e), _) = batch_commit d b in
+       (match e with
+        | Some e -> "err commit " ^ eerr_name e
+        | None ->
+          let (k2, _) = db_close d kd in
+          (match db_open c k2 with
+           | (OpenOk (d', _), _) -> "ok " ^ id ^ " " ^ dump_of d'
+           | (OpenErr (e, _), _) -> "ok " ^ id ^ " err " ^ eerr_name e))
+     | (OpenErr (e, _), _) -> "err " ^ eerr_name e)
   | "dir" ->
     (* leave the current directory (its disk is kept), enter another one *)
     Hashtbl.replace s.disks s.cur s.disk;
